@@ -146,8 +146,12 @@ class ScriptedStdin(object):
         self.pending = []
         self.log = []        # (k, name, what)
 
+    MAX_CALLS = 20000
+
     def __call__(self, prompt_text=''):
         self.calls += 1
+        if self.calls > self.MAX_CALLS:
+            raise core.BudgetExceeded(f'input() called more than {self.MAX_CALLS} times in one session')
         if 'Invalid input, try again' not in prompt_text:
             self.k += 1
             name = None
